@@ -48,6 +48,10 @@ def decAccess (j : Json) : R Access :=
   | .str "rw" => .ok .rw
   | .str "ro" => .ok .ro
   | .str "g" => .ok (.guarded 0)
+  -- a method / class-level attribute: refused by the repaired `Processor.set`, overwritten by the pinned one
+  | .str "m" => .ok (if PyxelModel.Generated.C08.setRefusesClassAttrs then .ro else .rw)
+  -- the same on `Arguments`, whose `__setattr__` refuses every undeclared name
+  | .str "ma" => .ok .ro
   | _ => .error s!"access: {j.compress}"
 
 partial def decTree (j : Json) : R Tree :=
@@ -122,6 +126,49 @@ def decInput (j : Json) : R (Except Err Val) :=
     .ok (do let vs ← xs.mapM id; pure (Val.list vs))
   | .error _ => do .ok (.ok (← decVal (← fld j "value")))
 
+/-- class-level attributes (methods, dunder names, constants) of the objects the model builds itself
+(processor, pipeline, model groups, model functions, `Arguments`), read off the real classes by the harness:
+appended after the real slots of each node -/
+structure Extras where
+  processor : Children := []
+  pipeline : Children := []
+  group : Children := []
+  model : Children := []
+  args : Children := []
+
+def decSlots (j : Json) : R Children := do
+  (← asArr j).mapM fun e =>
+    match e with
+    | .arr #[n, a, t] => do pure ((← asStr n), (← decAccess a), (← decTree t))
+    | _ => throw "slot: expected [name, access, tree]"
+
+def decExtras (j : Json) : R Extras :=
+  match j.getObjVal? "extras" with
+  | .error _ => .ok {}
+  | .ok e => do
+    .ok { processor := ← decSlots (fldD e "processor" (Json.arr #[])),
+          pipeline := ← decSlots (fldD e "pipeline" (Json.arr #[])),
+          group := ← decSlots (fldD e "group" (Json.arr #[])),
+          model := ← decSlots (fldD e "model" (Json.arr #[])),
+          args := ← decSlots (fldD e "args" (Json.arr #[])) }
+
+def decorate (x : Extras) (t : Tree) : Tree :=
+  let dArgs : Tree → Tree
+    | .node .args cs => .node .args (cs ++ x.args)
+    | t => t
+  let dModel : Tree → Tree
+    | .node .obj cs => .node .obj (cs.map (fun e => if e.1 == "arguments" then (e.1, e.2.1, dArgs e.2.2) else e) ++ x.model)
+    | t => t
+  let dGroup : Tree → Tree
+    | .node .group ms => .node .group (ms.map (fun e => (e.1, e.2.1, dModel e.2.2)) ++ x.group)
+    | t => t
+  let dPipe : Tree → Tree
+    | .node .obj cs => .node .obj (cs.map (fun e => (e.1, e.2.1, dGroup e.2.2)) ++ x.pipeline)
+    | t => t
+  match t with
+  | .node .obj cs => .node .obj (cs.map (fun e => if e.1 == "pipeline" then (e.1, e.2.1, dPipe e.2.2) else e) ++ x.processor)
+  | t => t
+
 def handle (j : Json) : R Json := do
   let op ← asStr (← fld j "op")
   match op with
@@ -134,7 +181,7 @@ def handle (j : Json) : R Json := do
     let key ← asList asStr (← fld j "key")
     let vin ← decInput j
     let probes ← asList (asList asStr) (← fld j "probes")
-    let t := processorTree det cfg
+    let t := decorate (← decExtras j) (processorTree det cfg)
     let strict := PyxelModel.Generated.C08.setIsStrict
     let acc : Nat → Val → Except Err Unit := fun _ _ => .ok ()
     let setOne (s : Bool) : Json :=
@@ -159,7 +206,7 @@ def handle (j : Json) : R Json := do
     let acc : Nat → Val → Except Err Unit := fun _ _ => .ok ()
     let view (ts : List Tree) : Json :=
       ofList (fun t => ofList (fun p => encRes encSub (getP t p)) probes) ts
-    let mut procs : List Tree := [processorTree det cfg]
+    let mut procs : List Tree := [decorate (← decExtras j) (processorTree det cfg)]
     let mut out : Array Json := #[]
     for st in steps do
       let what ← asStr (← fld st "do")
@@ -184,6 +231,7 @@ def handle (j : Json) : R Json := do
     let vals ← asList decVal (← fld j "values")
     let custom ← asBool (← fld j "custom")
     let t := processorTree det cfg
+    let td := decorate (← decExtras j) t
     let fixed := PyxelModel.Generated.C08.enabledSweepFixed
     let unit : Unit → Json := fun _ => Json.bool true
     let spec : Json :=
@@ -197,7 +245,7 @@ def handle (j : Json) : R Json := do
           | none => .error .key
           | some _ => if vals.any isUnderscore && !custom then .error .value else .ok ())
       | _ => Json.null
-    .ok (obj [("model", encRes unit (validateStep fixed t key vals custom)),
+    .ok (obj [("model", encRes unit (validateStep fixed td key vals custom)),
               ("model_fixed", encRes unit (validateStep true t key vals custom)),
               ("spec", spec)])
   | _ => .error s!"unknown op {op}"
